@@ -129,20 +129,30 @@ Section Live.
     unfold ei_type, std_type, M_plain_mods. cbn [existsb]. rewrite orb_false_r. reflexivity.
   Qed.
 
-  (* ExceptionInfo's text is the plain rendering of what the interpreter reports *)
-  Theorem ei_formatted_plain fs e :
-    ei_formatted C (map cp_of_live fs) (ei_type (ex_module e) (ex_qualname e)) (ex_str e)
-    = plain_text (std_tb C fs e).
+  (* the traceback ExceptionInfo holds: the interpreter's entries and type, its own message *)
+  Definition ei_tb (fs : list live_frame) (e : live_exc) : tb :=
+    mkTb (map (std_frame C) fs) (std_type e) (ei_msg e).
+
+  (* ExceptionInfo's text is the plain rendering of it, whatever the call chain *)
+  Theorem ei_text_plain fs e : ei_text C fs e = plain_text (ei_tb fs e).
   Proof.
-    unfold ei_formatted, tbi_formatted, plain_text, plain_lines, std_tb. cbn [t_frames t_type t_msg].
+    unfold ei_text, ei_formatted, tbi_formatted, plain_text, plain_lines, ei_tb. cbn [t_frames t_type t_msg].
     rewrite ei_type_std.
-    change (L_header :: flat_map entry_lines (map (std_frame C) fs) ++ [exc_text (std_type e) (ex_str e)])
-      with ((L_header :: flat_map entry_lines (map (std_frame C) fs)) ++ [exc_text (std_type e) (ex_str e)]).
+    change (L_header :: flat_map entry_lines (map (std_frame C) fs) ++ [exc_text (std_type e) (ei_msg e)])
+      with ((L_header :: flat_map entry_lines (map (std_frame C) fs)) ++ [exc_text (std_type e) (ei_msg e)]).
     rewrite join_terminated. cbn [flat_map].
     change M_header with L_header. change M_nl with NL. rewrite <- !app_assoc. f_equal. f_equal.
     f_equal.
     - rewrite flat_map_flat_map. induction fs as [|l fs IH]; [reflexivity|].
       cbn [map flat_map]. rewrite IH, tb_frame_str_std. reflexivity.
+  Qed.
+
+  (* in the ordinary case (str(value) works, no display-time suggestion) that is the
+     traceback the interpreter shows *)
+  Lemma plain_exc_tb fs e : plain_exc e = true -> ei_tb fs e = std_tb C fs e.
+  Proof.
+    unfold plain_exc, ei_tb, std_tb, std_msg, hint_of, std_base_msg, ei_msg.
+    destruct (ex_str e) as [s|]; [|discriminate]. intro H. rewrite H. rewrite app_nil_r. reflexivity.
   Qed.
 
   (* Callpoint.line against FrameSummary.line *)
